@@ -38,6 +38,35 @@ def run_shared(chk, tier, own):
                 ev = indx.file_event(IndxIO, tid, arity, common, ents, str(wd), cuts=(own == "C12" or tid % 7 == 0))
                 events.append(ev)
                 meta[tid] = {"kind": "file", "arity": arity, "common": common, "ents": ents}
+        # C12: crash points of the REAL writer at system-call granularity: the save runs under strace, its writes are
+        # replayed, and the loader must reject the disk content after every system call and at every byte of every write
+        if own == "C12":
+            sys_cases = [c for c in indx.gen_file_cases(tier, core.SEED + 3) if len(c[2]) <= 3][:: 9][: (10 if tier == "quick" else 120)]
+            nstates = 0
+            for arity, common, ents in sys_cases:
+                final, states = indx.syscall_disk_states(arity, common, ents, str(wd), str(core.VERIF))
+                tid += 1
+                ev = indx.file_event(IndxIO, tid, arity, common, ents, str(wd), cuts=False)
+                seen = set()
+                accepted = []
+                for k, (label, data) in enumerate(states):
+                    if data == final or data in seen:
+                        continue
+                    seen.add(data)
+                    nstates += 1
+                    try:
+                        indx.load_bytes(IndxIO, data, str(wd / "crash.indx"))
+                        accepted.append(k)
+                        ev.setdefault("accepted_labels", []).append(label)
+                    except Exception:
+                        pass
+                ev["accepted"] = accepted
+                ev.pop("accepted_labels", None) if not accepted else None
+                events.append(ev)
+                meta[tid] = {"kind": "file", "syscall_crash_points": len(seen), "arity": arity, "common": common, "ents": ents,
+                             "accepted_states": ev.get("accepted_labels", [])}
+            chk.extra["syscall_level_disk_states_loaded"] = nstates
+            chk.extra["files_traced_with_strace"] = len(sys_cases)
         # L3 with real indexes (loaded parts rebuild an equal, valid index)
         if own == "C10":
             from ..drivers import idxgen
